@@ -84,7 +84,8 @@ def run_dchain(side: H.Side, desc: dict):
     Returns (attempts, findings): attempts = list of dicts for the Coq comparison."""
     src = pat(*desc['src']) if desc.get('src') else None
     local0 = sl(desc['local0']) if desc.get('local0') is not None else None
-    tr = side.new_download(local0, desc.get('bt0'), desc.get('listener'))
+    existing = [(nm, sl(sp)) for nm, sp in desc.get('existing', [])]
+    tr = side.new_download(local0, desc.get('bt0'), desc.get('listener'), name=desc.get('name'), existing=existing)
     attempts = []
     findings = []
     lspecs = [list(desc['local0'])] if desc.get('local0') is not None else []
@@ -168,6 +169,12 @@ def run_dchain(side: H.Side, desc: dict):
             })
             if dstate_code(o) in (3, 4, 99):
                 break
+        for q, content in getattr(side, 'precreated', []):
+            now = q.read_bytes() if q.exists() else None
+            if now != content:
+                findings.append(Finding('download-wrote-into-another-existing-file', f'the download changed {q.name}, a file that was already in the download '
+                                        f'directory ({len(content)} -> {len(now) if now is not None else None} bytes)', {'kind': 'd', 'desc': desc},
+                                        observed=len(now) if now is not None else None, expected=len(content)))
     finally:
         side.forget(tr)
     return attempts, findings
@@ -231,7 +238,7 @@ def run_ucase(side: H.Side, desc: dict):
         ob = struct.pack('<Q', off)
     o = side.upload_attempt(src, fsz, ob, kbps=desc.get('kbps', 0), cut=desc.get('cut'), peer_closes=desc.get('pc', True),
                             close_kind=desc.get('close', 'eof'), osplit=desc.get('osplit'), msg_mode=desc.get('msg'),
-                            backpressure=desc.get('bp'))
+                            backpressure=desc.get('bp'), cut_mode=desc.get('cut_mode', 'error'))
     findings = []
     wit = {'kind': 'u', 'desc': desc}
     o_int = off if isinstance(off, int) else None
@@ -496,6 +503,16 @@ def gen_dchains(run: Run):
         for segs in ([k], [n - (l0n or 0), extra]):
             chains.append(('dishonest-more', {'src': None, 'local0': ([11, max(l0n, 1), 0, l0n] if l0n is not None else None),
                                              'sessions': [{'a': n, 'ok': True, 'kbps': kbps, 'sender': ['raw', [29, k + 3, 1, k], 'timeout'], 'segs': segs}]}))
+    # the name of the local file: remote names with glob / regex metacharacters, earlier downloads of equally named
+    # files already in the download directory (the plain name and numbered copies): a fresh file must be chosen
+    for name in ['song [live].mp3', 'a*b?.bin', 'x[1-3] (demo).dat', 'plain.mp3', 'dots...(1).x', 'x (1).mp3']:
+        stem, ext = name.rsplit('.', 1)
+        for ncopies in (0, 1, 2, 3):
+            ex = ([[name, [9, 50, 0, 7]]] if ncopies else []) + [[f'{stem} ({i}).{ext}', [9, 50, i, 5 + i]] for i in range(1, ncopies)]
+            c = honest_chain(rng, rng.choice([1, 129, 300]), [(rng.choice(['reset', 'eof']), rng.randrange(0, 100))] if rng.random() < 0.5 else [])
+            c['name'] = name
+            c['existing'] = ex
+            chains.append(('naming', c))
     # helpers: a late registered state listener that suspends inside every transition
     for n, faults in [(129, [('reset', 64)]), (8193, [('eof', 8192), ('reset', 1)]), (300, []), (0, [])]:
         c = honest_chain(rng, n, faults)
@@ -556,6 +573,13 @@ def gen_ucases(run: Run):
         for kbps, bp in [(0, 0.05), (20, 0.5), (100, 3.0), (0, 0.0)]:
             out.append({'src': [rng.randrange(251), n], 'fsz': 'src', 'off': rng.choice([0, 0, n // 3]), 'kbps': kbps, 'cut': None,
                         'pc': True, 'close': 'eof', 'bp': bp})
+    # the connection is LOST near the end of the upload as asyncio reports it: write() drops the data silently, only
+    # drain() / the reader raise; every cut position of the last chunks, small (limited) and large (unlimited) grants
+    for n, kbps, grant in [(12 * 128, 20, 128), (20 * 128 + 5, 100, 128), (9 * 8192 + 3, 0, 8192)]:
+        nch = -(-n // grant)
+        for j in range(max(1, nch - 9), nch):
+            out.append({'src': [rng.randrange(251), n], 'fsz': 'src', 'off': 0, 'kbps': kbps, 'cut': j * grant, 'pc': True, 'close': 'reset',
+                        'cut_mode': 'lost'})
     # the file connection breaks AND the message connection is broken / slow / gone as well: the failure
     # notification itself fails
     for n, cut in [(20000, 8192), (20000, 0), (300, 0), (24581, 16384)]:
@@ -728,7 +752,10 @@ def run(run: Run):
         # 1. listed findings are replayed first (deterministic KNOWN-FINDING lines)
         for key, wits, fixed in run.known_witnesses():
             for wit in (wits if isinstance(wits, list) else [wits]):
-                fs = run_witness(side, wit)
+                try:
+                    fs = run_witness(side, wit)
+                except Exception as e:      # the implementation (or the harness) crashed on a stored witness
+                    fs = [Finding('witness-replay-exception', f'{key}: {type(e).__name__}: {e}', wit)]
                 run.case({'corpus': key, 'w': wit}, kind='known-witness')
                 for f in fs:
                     run.add_finding(f)
